@@ -205,6 +205,45 @@ def first_candidate(ctx, crate, crs, tag):
         names = _chain_names(d, t["args"][0])
         okf = "iter" in names and not (set(names) & REORDER)
     ctx.ob(R, d.key, "candidates-folded-forwards", okf, d.loc(), "the candidates of a version set are visited front to back")
+    # the proposal found in an earlier version set of the requirement is carried into the later ones: the fold over a later
+    # version set starts from the running proposal and its result *is* the running proposal (no re-ranking between members)
+    for i, t in tf:
+        init = operand_place(t["args"][1])
+        carried = None
+        if init is not None and "p" not in init:
+            for bb, idx, r in d.defs_of(init["l"]):
+                if idx != "term" and r["k"] == "use":
+                    o, _ = q.origin_thru(d, r["o"], transparent=set())
+                    pl = operand_place(r["o"])
+                    # walk plain copies back to a `(C as Continue).0` projection
+                    cur = pl
+                    for _ in range(4):
+                        if cur is None:
+                            break
+                        if any(isinstance(e, dict) and e.get("as") == "Continue" for e in cur.get("p", [])):
+                            carried = cur["l"]
+                            break
+                        ds = d.defs_of(cur["l"])
+                        if len(ds) == 1 and ds[0][1] != "term" and ds[0][2]["k"] == "use":
+                            cur = operand_place(ds[0][2]["o"])
+                        else:
+                            break
+        loops_in = [l for l in for_loops(d, crs) if i in l[1]]
+        inner = min(loops_in, key=lambda l: len(l[1])) if loops_in else None
+        ok = carried is not None and inner is not None
+        if ok:
+            defs_in_loop = [(bb, idx, r) for bb, idx, r in d.defs_of(carried) if bb in inner[1]]
+            ok = bool(defs_in_loop)
+            for bb, idx, r in defs_in_loop:
+                if idx == "term":
+                    ok = ok and bb == i
+                elif r["k"] == "use":
+                    o, _ = q.origin_thru(d, r["o"], transparent=set())
+                    ok = ok and o["k"] == "call" and o["bb"] == i
+                else:
+                    ok = False
+        ctx.ob(R, d.key, "proposal-carried-across-version-sets", ok, where_call(d, i),
+               "the fold over a later union member starts from the proposal found so far and its result is the running proposal")
 
 
 def union_order(ctx, crate, crs, tag):
